@@ -32,7 +32,7 @@ Definition step (batch : bool) (w : world) (rs : runspec) : robs * world :=
   let w := if r_clear rs then clear_junk w else w in
   let w := preinstall (r_pre rs) w in
   let w := install_stop (r_stop rs) w in
-  let w := set_reentry None (set_ran [] w) in
+  let w := set_reentry [] (set_ran [] w) in
   let '(r, w') := run spinner_iterations batch (r_timeout rs) (r_fn rs) w in
   (observe r w', w').
 
@@ -46,7 +46,7 @@ Definition model (i : input) : obs := steps (i_batch i) (new_world (i_oracle i))
 
 Definition robs_eqb (a b : robs) : bool :=
   result_eqb (o_res a) (o_res b)
-  && option_eqb Bool.eqb (o_reentry a) (o_reentry b)
+  && list_eqb Bool.eqb (o_reentry a) (o_reentry b)
   && list_eqb Nat.eqb (o_ran a) (o_ran b)
   && list_eqb Nat.eqb (o_order a) (o_order b)
   && list_eqb Nat.eqb (o_junk a) (o_junk b)
